@@ -723,14 +723,66 @@ func ruleR20_4(w *World, r *Report) {
 			if !ok {
 				return
 			}
+			// the producer started through a function literal (`go func() { inner.Optimal(localRes, stop) }()`): the
+			// channel is a captured local made here; the producer is the call inside the literal that is handed it
+			type start struct {
+				mk     *ssa.MakeChan
+				cell   *ssa.Alloc
+				callee *ssa.Function
+				param  *ssa.Parameter
+				name   string
+			}
+			var starts []start
 			for _, arg := range g.Call.Args {
-				mk, ok := arg.(*ssa.MakeChan)
-				if !ok {
-					continue
+				if mk, ok := arg.(*ssa.MakeChan); ok {
+					starts = append(starts, start{mk: mk, name: w.calleeName(&g.Call)})
 				}
-				key := fmt.Sprintf("%s go %s", w.FuncName(fn), w.calleeName(&g.Call))
+			}
+			if mc, isMC := g.Call.Value.(*ssa.MakeClosure); isMC {
+				lit, _ := mc.Fn.(*ssa.Function)
+				for bi, b := range mc.Bindings {
+					al, isAl := b.(*ssa.Alloc)
+					if !isAl || lit == nil || bi >= len(lit.FreeVars) {
+						continue
+					}
+					var mk *ssa.MakeChan
+					nst := 0
+					for _, ref := range *al.Referrers() {
+						if st, ok := ref.(*ssa.Store); ok && st.Addr == ssa.Value(al) {
+							nst++
+							mk, _ = st.Val.(*ssa.MakeChan)
+						}
+					}
+					if mk == nil || nst != 1 {
+						continue
+					}
+					fv := lit.FreeVars[bi]
+					for _, ci := range callsIn(lit) {
+						for ai, a := range ci.Common().Args {
+							if ld, ok := a.(*ssa.UnOp); ok && ld.Op == token.MUL && ld.X == ssa.Value(fv) {
+								for _, callee := range w.Callees[ci] {
+									if ai < len(callee.Params) {
+										starts = append(starts, start{mk: mk, cell: al, callee: callee, param: callee.Params[ai], name: w.FuncName(callee) + " (in a function literal)"})
+									}
+								}
+							}
+						}
+					}
+				}
+			}
+			for _, stt := range starts {
+				mk := stt.mk
+				key := fmt.Sprintf("%s go %s", w.FuncName(fn), stt.name)
 				var bad []string
-				isCh := func(v ssa.Value) bool { return v == mk }
+				isCh := func(v ssa.Value) bool {
+					if v == ssa.Value(mk) {
+						return true
+					}
+					if ld, ok := v.(*ssa.UnOp); ok && stt.cell != nil && ld.Op == token.MUL && ld.X == ssa.Value(stt.cell) {
+						return true
+					}
+					return false
+				}
 				sites := drainSites(fn, isCh)
 				if len(sites) == 0 {
 					bad = append(bad, "the channel handed to the producer is never ranged over")
@@ -742,22 +794,28 @@ func ruleR20_4(w *World, r *Report) {
 							bad = append(bad, "return at "+w.InstrPos(y)+" is reachable before the producer's channel is exhausted (producer left blocked, later results lost)")
 						}
 					case *ssa.Call:
-						if isCloseOf(&y.Call, mk) {
+						if b, isB := y.Call.Value.(*ssa.Builtin); isB && b.Name() == "close" && len(y.Call.Args) == 1 && isCh(y.Call.Args[0]) {
 							bad = append(bad, "the forwarder closes the producer's channel itself at "+w.InstrPos(y))
 						}
 					case *ssa.Defer:
-						if isCloseOf(&y.Call, mk) {
+						if b, isB := y.Call.Value.(*ssa.Builtin); isB && b.Name() == "close" && len(y.Call.Args) == 1 && isCh(y.Call.Args[0]) {
 							bad = append(bad, "the forwarder closes the producer's channel itself at "+w.InstrPos(y))
 						}
 					}
 				})
 				// the producer must close its parameter on every return
 				cs := w.Callees[g]
+				if stt.callee != nil {
+					cs = []*ssa.Function{stt.callee}
+				}
 				if len(cs) == 0 {
 					bad = append(bad, "producer is not an analysed function")
 				}
 				for _, callee := range cs {
-					pi := argParam(callee, &g.Call, mk)
+					pi := stt.param
+					if stt.callee == nil {
+						pi = argParam(callee, &g.Call, mk)
+					}
 					if pi == nil {
 						bad = append(bad, "channel does not reach the producer as a parameter")
 						continue
